@@ -858,7 +858,9 @@ class Pass2(CompilePass):
                  not node.right.type.is_builtin:
                 raise CompileError(EC.TYPE_MISMATCH, node=node)
 
-        if node.type == Type.UNKNOWN:
+        if not node.type.is_builtin:
+            # Type.UNKNOWN compares unequal to everything (itself
+            # included), so it cannot be tested with ==
             raise CompileError(EC.TYPE_MISMATCH, node=node)
 
     def process_unary_op_pre(self, node):
